@@ -25,6 +25,12 @@ definition mirrors (under /repo/libs/core/include/fcppt/ unless noted):
                          to_container.hpp, join.hpp, combine.hpp, apply.hpp, sequence.hpp (all present: algorithm::map with
                          `move_if_rvalue<Source>(_value.get_unsafe())`), cat.hpp
 
+* `moveIf`, `moveIfRvalue` — move_if.hpp, detail/move_if.hpp, move_if_rvalue.hpp used to initialise a value: a move iff the condition / `Type`
+                         asks for it or the argument is an rvalue — a `T const&` argument is copied in every case
+* `eithMap` … `eithFirstSuccess` — either/map.hpp, map_failure.hpp, bind.hpp (after fix f5622af the failure is `move_if_rvalue`d), match.hpp,
+                         success_opt.hpp, failure_opt.hpp, from_optional.hpp, join.hpp, apply.hpp (every failing either's failure goes into the
+                         failure array, the first one is returned), sequence.hpp (rvalue source only: first failure, else all successes), first_success.hpp
+
 The user's functions (part of the harness, see harness/c05.cpp): given an rvalue they move it
 through (same identity), given an lvalue they read it and make a new value (`derive`).
 -/
@@ -34,6 +40,9 @@ inductive Op where
   | algMap | fold | foldBreak | mapConcat | mapOptional | reverse | join2 | join3
   | popBack | popFront | moveRangeMap | moveClear | getOrInsert | getOrInsertWithResult
   | optMap | optBind | optFrom | optAlt | optFilter | optToContainer | optJoin | optCombine | optApply2 | optSequence | optCat
+  | moveIf | moveIfRvalue
+  | eithMap | eithMapFailure | eithBind | eithMatch | eithSuccessOpt | eithFailureOpt | eithFromOptional | eithJoin
+  | eithApply2 | eithSequence | eithFirstSuccess
   deriving DecidableEq, Repr, Inhabited
 
 /-- Arguments (value category, element identities in container order) and the operation's
@@ -47,6 +56,8 @@ def Input.cat (inp : Input) (a : Nat) : Option Cat := inp.args[a]?.map (·.1)
 def Input.ids (inp : Input) (a : Nat) : List Nat := match inp.args[a]? with | some x => x.2 | none => []
 def Input.size (inp : Input) (a : Nat) : Nat := (inp.ids a).length
 def Input.isRv (inp : Input) (a : Nat) : Bool := inp.cat a == some .rv
+/-- rvalue, or an lvalue the caller explicitly asked to be moved from -/
+def Input.isMv (inp : Input) (a : Nat) : Bool := inp.cat a == some .rv || inp.cat a == some .io
 
 /-! ## builders -/
 
@@ -78,6 +89,7 @@ def prog (o : Op) (inp : Input) : List Instr :=
   let n := inp.size
   let rv := inp.isRv
   let par0 := inp.par.headD 0
+  let par1 := (inp.par.drop 1).headD 0
   match o with
   | .algMap => callAll (rv 0) 0 (n 0) .res
   | .fold => .xfer 1 0 .move .res :: deriveEach 0 (List.replicate (n 0) 1) .res
@@ -121,8 +133,40 @@ def prog (o : Op) (inp : Input) : List Instr :=
     -- par = presence mask of the entries; the argument lists the elements of the present ones
     if inp.par.all (· == 1) then xferAll 0 (n 0) (fwd (rv 0)) .res else []
   | .optCat => xferAll 0 (n 0) (fwd (rv 0)) .res
+  -- move_if<Cond>(x) / move_if_rvalue<Type>(x) initialising a value; an `io` argument is a non-const lvalue the caller asked to move
+  | .moveIf | .moveIfRvalue => xferAll 0 (n 0) (fwd (inp.isMv 0)) .res
+  -- either: the argument is the element held; par0 = 1: it is the success, 0: the failure
+  | .eithMap => if par0 = 1 then callAll (rv 0) 0 (n 0) .res else xferAll 0 (n 0) (fwd (rv 0)) .res
+  | .eithMapFailure => if par0 = 1 then xferAll 0 (n 0) (fwd (rv 0)) .res else callAll (rv 0) 0 (n 0) .res
+  | .eithBind =>
+    -- par1: the user's function reads its argument and answers success (1) or failure (0) holding it
+    if par0 = 1 then
+      (if rv 0 then readAll 0 (n 0) ++ xferAll 0 (n 0) .move .res else deriveEach 0 (List.replicate (n 0) 1) .res)
+    else xferAll 0 (n 0) (fwd (rv 0)) .res
+  | .eithMatch => callAll (rv 0) 0 (n 0) .res
+  | .eithSuccessOpt => if par0 = 1 then xferAll 0 (n 0) (fwd (rv 0)) .res else []
+  | .eithFailureOpt => if par0 = 1 then [] else xferAll 0 (n 0) (fwd (rv 0)) .res
+  | .eithFromOptional => if n 0 = 0 then [.fresh 1000 .res] else xferAll 0 (n 0) (fwd (rv 0)) .res
+  | .eithJoin => xferAll 0 (n 0) (fwd (rv 0)) .res
+  | .eithApply2 =>
+    -- par = [side of the first, side of the second]
+    if par0 = 1 then
+      (if par1 = 1 then readAll 1 (n 1) ++ callAll (rv 0) 0 (n 0) .res else xferAll 1 (n 1) (fwd (rv 1)) .res)
+    else
+      xferAll 0 (n 0) (fwd (rv 0)) .res ++ (if par1 = 1 then [] else xferAll 1 (n 1) (fwd (rv 1)) .drop)
+  | .eithSequence =>
+    -- par = side of every entry; the first failure is returned, else all successes
+    match inp.par.findIdx? (· == 0) with
+    | some k => [.xfer 0 k (fwd (rv 0)) .res]
+    | none => xferAll 0 (n 0) (fwd (rv 0)) .res
+  | .eithFirstSuccess =>
+    -- no arguments; par = what the functions answer; function j makes value 1000 + j
+    match inp.par.findIdx? (· == 1) with
+    | some k => ((List.range k).map fun j => .fresh (1000 + j) .drop) ++ [.fresh (1000 + k) .res]
+    | none => (List.range inp.par.length).map fun j => .fresh (1000 + j) .res
 
 def jn (b : Bool) : String := if b then "J" else "N"
+def sf (b : Bool) : String := if b then "S" else "F"
 
 /-- the shape of the result (which alternative, present/absent, the element a returned reference points to) -/
 def tag (o : Op) (inp : Input) : String :=
@@ -142,6 +186,15 @@ def tag (o : Op) (inp : Input) : String :=
   | .optCombine => jn (inp.size 0 == 1 || inp.size 1 == 1)
   | .optApply2 => jn (inp.size 0 == 1 && inp.size 1 == 1)
   | .optSequence => jn (inp.par.all (· == 1))
+  | .eithMap | .eithMapFailure => sf (inp.par.headD 0 == 1)
+  | .eithBind => sf (inp.par.headD 0 == 1 && (inp.par.drop 1).headD 0 == 1)
+  | .eithSuccessOpt => jn (inp.par.headD 0 == 1)
+  | .eithFailureOpt => jn (inp.par.headD 0 == 0)
+  | .eithFromOptional => sf (inp.size 0 == 1)
+  | .eithJoin => sf (inp.par.headD 0 == 2)
+  | .eithApply2 => sf (inp.par.headD 0 == 1 && (inp.par.drop 1).headD 0 == 1)
+  | .eithSequence => sf (inp.par.all (· == 1))
+  | .eithFirstSuccess => sf (inp.par.any (· == 1))
   | _ => "-"
 
 /-! ## well-formed inputs -/
@@ -180,6 +233,27 @@ def shapeOk (o : Op) (inp : Input) : Bool :=
     inp.args.length == 2 && catIn inp 0 anyCat && catIn inp 1 anyCat && n 0 ≤ 1 && n 1 ≤ 1 && inp.par.isEmpty
   | .optSequence | .optCat =>
     inp.args.length == 1 && catIn inp 0 anyCat && inp.par.all (· ≤ 1) && inp.par.count 1 == n 0
+  | .moveIf =>
+    -- par = [Cond]; `l`: a non-const lvalue that must stay (Cond false), `i`: one the caller asked to move (Cond true)
+    inp.args.length == 1 && catIn inp 0 [.lv, .cr, .rv, .io] && n 0 == 1 && inp.par.length == 1 && inp.par.headD 0 ≤ 1 &&
+      (inp.cat 0 != some .lv || inp.par.headD 0 == 0) && (inp.cat 0 != some .io || inp.par.headD 0 == 1)
+  | .moveIfRvalue =>
+    -- par = [Type]: 0 = T&, 1 = T const&, 2 = T, 3 = T&&
+    inp.args.length == 1 && catIn inp 0 [.lv, .cr, .rv, .io] && n 0 == 1 && inp.par.length == 1 && inp.par.headD 0 ≤ 3 &&
+      (inp.cat 0 != some .lv || inp.par.headD 0 ≤ 1) && (inp.cat 0 != some .io || 2 ≤ inp.par.headD 0)
+  | .eithMap | .eithMapFailure | .eithMatch | .eithSuccessOpt | .eithFailureOpt =>
+    inp.args.length == 1 && catIn inp 0 anyCat && n 0 == 1 && inp.par.length == 1 && inp.par.headD 0 ≤ 1
+  | .eithBind =>
+    inp.args.length == 1 && catIn inp 0 anyCat && n 0 == 1 && inp.par.length == 2 && inp.par.all (· ≤ 1)
+  | .eithFromOptional => inp.args.length == 1 && catIn inp 0 anyCat && n 0 ≤ 1 && inp.par.isEmpty
+  | .eithJoin =>
+    -- par = [shape]: 0 = failure x, 1 = success (failure x), 2 = success (success x)
+    inp.args.length == 1 && catIn inp 0 anyCat && n 0 == 1 && inp.par.length == 1 && inp.par.headD 0 ≤ 2
+  | .eithApply2 =>
+    inp.args.length == 2 && catIn inp 0 anyCat && catIn inp 1 anyCat && n 0 == 1 && n 1 == 1 && inp.par.length == 2 &&
+      inp.par.all (· ≤ 1)
+  | .eithSequence => inp.args.length == 1 && catIn inp 0 [.rv] && inp.par.length == n 0 && inp.par.all (· ≤ 1)
+  | .eithFirstSuccess => inp.args.length == 0 && inp.par.all (· ≤ 1)
 
 def wf (o : Op) (inp : Input) : Bool := idsOk inp && shapeOk o inp
 
@@ -189,7 +263,9 @@ def exec (o : Op) (inp : Input) : St := run (prog o inp) (St.init (inp.args.map 
 def Op.all : List Op :=
   [.algMap, .fold, .foldBreak, .mapConcat, .mapOptional, .reverse, .join2, .join3,
    .popBack, .popFront, .moveRangeMap, .moveClear, .getOrInsert, .getOrInsertWithResult,
-   .optMap, .optBind, .optFrom, .optAlt, .optFilter, .optToContainer, .optJoin, .optCombine, .optApply2, .optSequence, .optCat]
+   .optMap, .optBind, .optFrom, .optAlt, .optFilter, .optToContainer, .optJoin, .optCombine, .optApply2, .optSequence, .optCat,
+   .moveIf, .moveIfRvalue, .eithMap, .eithMapFailure, .eithBind, .eithMatch, .eithSuccessOpt, .eithFailureOpt, .eithFromOptional,
+   .eithJoin, .eithApply2, .eithSequence, .eithFirstSuccess]
 
 def Op.name : Op → String
   | .algMap => "algmap" | .fold => "fold" | .foldBreak => "foldbrk" | .mapConcat => "mapcat" | .mapOptional => "mapopt"
@@ -198,5 +274,9 @@ def Op.name : Op → String
   | .optMap => "optmap" | .optBind => "optbind" | .optFrom => "optfrom" | .optAlt => "optalt" | .optFilter => "optfilter"
   | .optToContainer => "opttocont" | .optJoin => "optjoin" | .optCombine => "optcombine" | .optApply2 => "optapply2"
   | .optSequence => "optseq" | .optCat => "optcat"
+  | .moveIf => "moveif" | .moveIfRvalue => "moveifrv"
+  | .eithMap => "eithmap" | .eithMapFailure => "eithmapfail" | .eithBind => "eithbind" | .eithMatch => "eithmatch"
+  | .eithSuccessOpt => "eithsuccopt" | .eithFailureOpt => "eithfailopt" | .eithFromOptional => "eithfromopt"
+  | .eithJoin => "eithjoin" | .eithApply2 => "eithapply2" | .eithSequence => "eithseq" | .eithFirstSuccess => "eithfirst"
 
 end Fcppt.C05
